@@ -2,7 +2,7 @@
 recorded from the real code, and how a rejection maps to a violation key."""
 import json, os
 import vlib
-from vlib import harness, tlc_mc, trace_check, log
+from vlib import harness, tlc_mc, trace_check, log, spec_mutant
 
 REGISTRY = {}
 
@@ -70,6 +70,9 @@ def c04(chk):
             (r["ev"], r.get("outcome"), r.get("origin"), r.get("old_origin"), r.get("reason"), "removed" in r)
             if r["ev"] in ("ap.add", "ap.remove", "ap.remove_id") and (r.get("outcome") != "new") else None))
     sample_events(chk, s1, ("ap.add", "ap.remove_id", "obs.event"))
+    if not quick(chk):
+        spec_mutant(chk, "remove_by_peer", "MC_Conn.tla", "MC_Conn_quick.cfg", [MUT_REMOVE_BY_PEER])
+        spec_mutant(chk, "no_lost_on_replace", "MC_Conn.tla", "MC_Conn_quick.cfg", [MUT_NO_LOST_ON_REPLACE])
 
 
 def table_check(chk, table_name, rows, scenario, **kw):
@@ -96,6 +99,7 @@ def c05(chk):
     chk.assumptions = ["both handshakes finish (the property's premise): runs where a dial failed are still validated "
                        "by the trace spec but not required to converge on a connection"]
     chk.add_mc(tlc_mc("MC_Conn.tla", "MC_Conn_c05.cfg", workers=4, timeout=300))
+    spec_mutant(chk, "tiebreak_inverted", "MC_Conn.tla", "MC_Conn_c05.cfg", [MUT_TIEBREAK], workers=4)
     tables = vlib.tlc_tables("TieBreakTable.tla", "TieBreakTable.cfg")
     table_check(chk, "tiebreak", tables["tiebreak"], "table-tiebreak", per_row=400 if quick(chk) else 20000)
     runs = 48 if quick(chk) else 48 * 8
@@ -120,3 +124,107 @@ def c05(chk):
             if seq:
                 chk.case(tuple(seq))
         sample_events(chk, summ, ("ap.add",), n=3)
+
+
+MUT_TIEBREAK = ("AnemoConn.tla", '[] existing = "in"  /\\ new = "out" -> remote < own', '[] existing = "in"  /\\ new = "out" -> own < remote')
+MUT_REMOVE_BY_PEER = ("AnemoConn.tla", "RemovesOwn(n, p, g) == p \\in DOMAIN active[n] /\\ active[n][p].gid = g", "RemovesOwn(n, p, g) == p \\in DOMAIN active[n]")
+MUT_NO_LOST_ON_REPLACE = ("AnemoConn.tla", 'evs     |-> <<Lost(p, "Requested"), New(p)>>,', 'evs     |-> <<New(p)>>,')
+MUT_LIMIT_OFF_BY_ONE = ("AnemoConn.tla", "ELSE Cardinality(DOMAIN active[n]) < cfg[n].limit", "ELSE Cardinality(DOMAIN active[n]) <= cfg[n].limit")
+MUT_BACKOFF_GE = ("AnemoConn.tla", "(p \\in DOMAIN bo => t > bo[p].notBefore)", "(p \\in DOMAIN bo => t >= bo[p].notBefore)")
+MUT_NO_ROTATION = ("AnemoConn.tla", "((IF p \\in DOMAIN bo THEN bo[p].attempts ELSE 0) % Len(known[n][p].addrs)) + 1", "1")
+MUT_DIAL_ALLOWED = ("AnemoConn.tla", '/\\ known[n][p].aff = "High"', '/\\ known[n][p].aff \\in {"High", "Allowed"}')
+MUT_DIAL_SELF = ("AnemoConn.tla", "        /\\ p # n\n", "")
+
+
+@prop("C03")
+def c03(chk):
+    chk.rule = ("cases = (address owner kind, pin given?, pin matches owner?, outcome) per dial recorded; non-trivial = the "
+                "party answering is not the pinned identity, or an adversary listens (replayed certificate / own certificate)")
+    chk.assumptions = ["the adversary cannot forge Ed25519 signatures (it holds only its own key)"]
+    chk.add_mc(tlc_mc("MC_Conn.tla", "MC_Conn_quick.cfg" if quick(chk) else "MC_Conn_thorough.cfg",
+                      workers=8 if quick(chk) else 14, timeout=300 if quick(chk) else 1800))
+    runs = 16 if quick(chk) else 400
+    for label, lossy in (("clean", 0), ("lossy", 1)):
+        summ = harness("c03", out=os.path.join(vlib.WORK, f"C03_{label}"), seed=chk.seed + 1000 * lossy,
+                       runs=runs, jobs=12, files=8, lossy=lossy)
+        summ["args"] = {"lossy": lossy}
+        trace_check(chk, *CONN_TRACE, summ, label=label)
+        for f in summ["files"]:
+            addr_kind, calls = {}, {}
+            for line in open(f):
+                r = json.loads(line)
+                if r["ev"] == "reset":
+                    addr_kind = {}
+                elif r["ev"] == "obs.addr":
+                    addr_kind[r["addr"]] = r.get("kind")
+                elif r["ev"] == "obs.node_start":
+                    addr_kind[r["addr"]] = f"honest{r['node']}"
+                elif r["ev"] in ("obs.connect_result",) and "addr" in r:
+                    chk.case((addr_kind.get(r["addr"]), r.get("expected"), r["ok"], r.get("peer")))
+        sample_events(chk, summ, ("obs.connect_result", "dial.done"), n=3)
+    if not quick(chk):
+        spec_mutant(chk, "remove_by_peer", "MC_Conn.tla", "MC_Conn_quick.cfg", [MUT_REMOVE_BY_PEER])
+
+
+@prop("C09")
+def c09(chk):
+    chk.rule = ("cases = (fault kind active, close cause, reason reported by the other side) per handler exit recorded, "
+                "plus quiescence observations; non-trivial = the two sides' views had to be reconciled (close, "
+                "rejection, loss, restart) or a partition outlasted the idle timeout")
+    chk.assumptions = ["'no later than the idle timeout' is read as QUIC's idle-timeout rule (RFC 9000 10.1): a survivor that "
+                       "keeps sending (keep-alive, new RPC) restarts its timer once, so the bound is idle + keep-alive interval "
+                       "(+ the last send) - see DESIGN.md"]
+    chk.add_mc(tlc_mc("MC_Conn.tla", "MC_Conn_quick.cfg" if quick(chk) else "MC_Conn_thorough.cfg",
+                      workers=8 if quick(chk) else 14, timeout=300 if quick(chk) else 1800))
+    runs = 24 if quick(chk) else 700
+    for label, kw in (("ka", dict(keepalive=3000, nodes=3, ops=50)),
+                      ("noka", dict(keepalive=0, nodes=3, ops=50)),
+                      ("four", dict(keepalive=3000, nodes=4, ops=90))):
+        summ = conn_histories(chk, label, seed=chk.seed + 31, runs=runs if label != "four" else runs // 2, jobs=12,
+                              files=8, faults=1, restarts=1, known=1, **kw)
+        count_cases(chk, summ, lambda r: (
+            (r["ev"], r.get("reason"), "removed" in r) if r["ev"] in ("h.closing", "ap.remove_id", "obs.quiesce") else None))
+    sample_events(chk, summ, ("h.closing", "obs.quiesce", "obs.rpc_result"), n=4)
+    if not quick(chk):
+        spec_mutant(chk, "remove_by_peer_c09", "MC_Conn.tla", "MC_Conn_quick.cfg", [MUT_REMOVE_BY_PEER])
+
+
+@prop("C10")
+def c10(chk):
+    chk.rule = ("cases = (verdict, affinity, limit, established connections at arrival) per admission decision recorded; "
+                "all are non-trivial except (admit, no affinity, no limit)")
+    chk.assumptions = ["arrivals do not overlap (the property excludes simultaneous arrivals)"]
+    chk.add_mc(tlc_mc("MC_Conn.tla", "MC_Conn_c10.cfg", workers=8, timeout=600))
+    runs = 48 if quick(chk) else 1500
+    summ = harness("c10", out=os.path.join(vlib.WORK, "C10"), seed=chk.seed, runs=runs, jobs=12, files=8)
+    summ["args"] = {}
+    trace_check(chk, *CONN_TRACE, summ, label="admission")
+    count_cases(chk, summ, lambda r: (
+        (r["verdict"], r.get("affinity"), r.get("limit"), r["active_len"])
+        if r["ev"] == "in.admission" and not (r["verdict"] == "admit" and "affinity" not in r and "limit" not in r) else None))
+    sample_events(chk, summ, ("in.admission",), n=4)
+    spec_mutant(chk, "limit_off_by_one", "MC_Conn.tla", "MC_Conn_c10.cfg", [MUT_LIMIT_OFF_BY_ONE])
+
+
+@prop("C13")
+def c13(chk):
+    chk.rule = ("cases = (peers drained ok/failed, eligible, dialed, address index, cap binding, attempts) per connectivity "
+                "check recorded; non-trivial = the tick drained a result, dialed, skipped an eligible peer (cap) or held a "
+                "peer back (back-off)")
+    chk.assumptions = ["ConnectsWithin is evaluated for the unambiguous case (peer becomes reachable while no attempt is in flight)"]
+    chk.add_mc(tlc_mc("MC_Dial.tla", "MC_Dial_quick.cfg" if quick(chk) else "MC_Dial_thorough.cfg", workers=8, timeout=900))
+    chk.add_mc(tlc_mc("MC_Dial.tla", "MC_Dial_cap.cfg", workers=8, timeout=900))
+    runs = 24 if quick(chk) else 600
+    summ = harness("c13", out=os.path.join(vlib.WORK, "C13"), seed=chk.seed, runs=runs, jobs=12, files=8)
+    summ["args"] = {}
+    trace_check(chk, *CONN_TRACE, summ, label="dialing")
+    count_cases(chk, summ, lambda r: (
+        (tuple(d["ok"] for d in r["drained"]), len(r["eligible"]), tuple(d["idx"] for d in r["dials"]),
+         len(r["eligible"]) > len(r["dials"]), tuple(sorted(b["attempts"] for b in r["backoff"]))[:3])
+        if r["ev"] == "mgr.tick" and (r["drained"] or r["dials"] or r["eligible"] or r["backoff"]) else None))
+    sample_events(chk, summ, ("mgr.tick",), n=2)
+    spec_mutant(chk, "backoff_ge", "MC_Dial.tla", "MC_Dial_quick.cfg", [MUT_BACKOFF_GE])
+    if not quick(chk):
+        spec_mutant(chk, "no_rotation", "MC_Dial.tla", "MC_Dial_quick.cfg", [MUT_NO_ROTATION])
+        spec_mutant(chk, "dial_allowed", "MC_Dial.tla", "MC_Dial_quick.cfg", [MUT_DIAL_ALLOWED])
+        spec_mutant(chk, "dial_self", "MC_Dial.tla", "MC_Dial_quick.cfg", [MUT_DIAL_SELF])
